@@ -241,8 +241,27 @@ macro_rules! impl_io_uring_read {
                         if let CoroutineState::Syscall((), syscall, syscall_state) = co.state() {
                             match syscall_state {
                                 SyscallState::Timeout => {
-                                    $crate::syscall::set_errno(libc::ETIMEDOUT);
-                                    return -1;
+                                    // the operation is still in flight and owns the caller's
+                                    // buffer and its entry in the wait table: cancel it and take
+                                    // its completion, which is -ECANCELED or a result that was
+                                    // faster than the cancel request
+                                    let parked = $crate::net::EventLoops::cancel_io_uring(co.id()).is_ok()
+                                        && co.syscall((), syscall, SyscallState::Suspend(u64::MAX)).is_ok();
+                                    if !parked {
+                                        $crate::syscall::set_errno(libc::ETIMEDOUT);
+                                        return -1;
+                                    }
+                                    if let Some(suspender) = SchedulableSuspender::current() {
+                                        suspender.suspend();
+                                    }
+                                    if let CoroutineState::Syscall((), syscall, SyscallState::Callback) = co.state() {
+                                        if co.syscall((), syscall, SyscallState::Executing).is_err() {
+                                            $crate::error!(
+                                                "{} change to syscall {} {} failed !",
+                                                co.name(), syscall, SyscallState::Executing
+                                            );
+                                        }
+                                    }
                                 },
                                 SyscallState::Callback => {
                                     let new_state = SyscallState::Executing;
@@ -269,6 +288,8 @@ macro_rules! impl_io_uring_read {
                     if syscall_result < 0 {
                         let errno: std::ffi::c_int = (-syscall_result).try_into()
                             .expect("io_uring errno overflow");
+                        // only a wait that timed out is ever cancelled
+                        let errno = if libc::ECANCELED == errno { libc::ETIMEDOUT } else { errno };
                         $crate::syscall::set_errno(errno);
                         syscall_result = -1;
                     }
@@ -327,8 +348,27 @@ macro_rules! impl_io_uring_write {
                         if let CoroutineState::Syscall((), syscall, syscall_state) = co.state() {
                             match syscall_state {
                                 SyscallState::Timeout => {
-                                    $crate::syscall::set_errno(libc::ETIMEDOUT);
-                                    return -1;
+                                    // the operation is still in flight and owns the caller's
+                                    // buffer and its entry in the wait table: cancel it and take
+                                    // its completion, which is -ECANCELED or a result that was
+                                    // faster than the cancel request
+                                    let parked = $crate::net::EventLoops::cancel_io_uring(co.id()).is_ok()
+                                        && co.syscall((), syscall, SyscallState::Suspend(u64::MAX)).is_ok();
+                                    if !parked {
+                                        $crate::syscall::set_errno(libc::ETIMEDOUT);
+                                        return -1;
+                                    }
+                                    if let Some(suspender) = SchedulableSuspender::current() {
+                                        suspender.suspend();
+                                    }
+                                    if let CoroutineState::Syscall((), syscall, SyscallState::Callback) = co.state() {
+                                        if co.syscall((), syscall, SyscallState::Executing).is_err() {
+                                            $crate::error!(
+                                                "{} change to syscall {} {} failed !",
+                                                co.name(), syscall, SyscallState::Executing
+                                            );
+                                        }
+                                    }
                                 },
                                 SyscallState::Callback => {
                                     let new_state = SyscallState::Executing;
@@ -355,6 +395,8 @@ macro_rules! impl_io_uring_write {
                     if syscall_result < 0 {
                         let errno: std::ffi::c_int = (-syscall_result).try_into()
                             .expect("io_uring errno overflow");
+                        // only a wait that timed out is ever cancelled
+                        let errno = if libc::ECANCELED == errno { libc::ETIMEDOUT } else { errno };
                         $crate::syscall::set_errno(errno);
                         syscall_result = -1;
                     }
